@@ -554,7 +554,8 @@ impl<'a> Lexer<'a> {
 
                 // so far the only token type that can have a null character reach push
                 // because it adds all chars, mostly indiscriminately
-                if !end && c != '\0' {
+                // (the null character pushed through at the end of input is not content, one in the text is)
+                if !end && (c != '\0' || !self.at_end) {
                     self.current_characters.push(c);
                     self.wrap_coordinates_on_newline(c);
                 }
@@ -600,7 +601,8 @@ impl<'a> Lexer<'a> {
 
                 // so far the only token type that can have a null character reach push
                 // because it adds all chars, mostly indiscriminately
-                if !end && c != '\0' {
+                // (the null character pushed through at the end of input is not content, one in the text is)
+                if !end && (c != '\0' || !self.at_end) {
                     self.current_characters.push(c);
                     self.wrap_coordinates_on_newline(c);
                 }
